@@ -241,8 +241,16 @@ func (p *parser) newMapLiteralEnd(initExpr *ast.Node, pos plToken.Pos) *ast.Node
 	return initExpr
 }
 
+// parseIntLiteral reads a decimal or 0x-prefixed integer literal (a leading 0 does not mean octal).
+func parseIntLiteral(s string) (int64, error) {
+	if len(s) > 2 && s[0] == '0' && (s[1] == 'x' || s[1] == 'X') {
+		return strconv.ParseInt(s[2:], 16, 64)
+	}
+	return strconv.ParseInt(s, 10, 64)
+}
+
 func (p *parser) newNumberLiteral(v Item) *ast.Node {
-	if n, err := strconv.ParseInt(v.Val, 0, 64); err != nil {
+	if n, err := parseIntLiteral(v.Val); err != nil {
 		f, err := strconv.ParseFloat(v.Val, 64)
 		if err != nil {
 			p.addParseErrf(p.yyParser.lval.item.PositionRange(),
